@@ -52,17 +52,20 @@ class NotRational(Exception):
     pass
 
 
-def rat(n, res=None, subst=None, _depth=0):
-    """(num, den) of expression n. subst: {id(node) or atom-name: (num, den)} replaces a node / an atom by a rational function"""
+def rat(n, res=None, subst=None, _depth=0, alias=None):
+    """(num, den) of expression n. subst: {id(node) or local name or atom name: (num, den)} replaces a node / a local / an atom
+    by a rational function. alias: field alias table of nf()"""
     n = nfm.strip_casts(n)
     k = n["k"]
     if subst and id(n) in subst:
         return subst[id(n)]
     if k == "Path" and "local" in n["res"]:
+        if subst and n["res"]["name"] in subst:
+            return subst[n["res"]["name"]]
         if res is not None and _depth < 10:
             d = res.lookup(n["res"]["local"], n)
             if d is not None:
-                return rat(d, res, subst, _depth + 1)
+                return rat(d, res, subst, _depth + 1, alias)
     if k == "Lit" and n.get("lk") in ("int", "float"):
         try:
             v = n["v"].replace("_", "")
@@ -75,11 +78,11 @@ def rat(n, res=None, subst=None, _depth=0):
         except (ValueError, ZeroDivisionError):
             pass
     if k == "Unary" and n["op"] == "-":
-        a = rat(n["e"], res, subst, _depth)
+        a = rat(n["e"], res, subst, _depth, alias)
         return (p_add(ZERO, a[0], -1), a[1])
     if k == "Binary" and n["op"] in ("+", "-", "*", "/"):
-        a = rat(n["l"], res, subst, _depth)
-        b = rat(n["r"], res, subst, _depth)
+        a = rat(n["l"], res, subst, _depth, alias)
+        b = rat(n["r"], res, subst, _depth, alias)
         op = n["op"]
         if op == "*":
             return (p_mul(a[0], b[0]), p_mul(a[1], b[1]))
@@ -89,11 +92,11 @@ def rat(n, res=None, subst=None, _depth=0):
             return (p_add(a[0], b[0], 1 if op == "+" else -1), a[1])
         return (p_add(p_mul(a[0], b[1]), p_mul(b[0], a[1]), 1 if op == "+" else -1), p_mul(a[1], b[1]))
     if k == "MethodCall" and n["name"] == "recip" and not n["args"]:
-        a = rat(n["recv"], res, subst, _depth)
+        a = rat(n["recv"], res, subst, _depth, alias)
         return (a[1], a[0])
     if k == "Block" and "expr" in n and not n["stmts"]:
-        return rat(n["expr"], res, subst, _depth)
-    name = nfm.nf(n, True, res=res)
+        return rat(n["expr"], res, subst, _depth, alias)
+    name = nfm.nf(n, True, alias=alias, res=res)
     if subst and name in subst:
         return subst[name]
     return (p_atom(name), ONE)
@@ -157,3 +160,49 @@ def show(r):
     if r[1] == ONE:
         return poly(r[0])
     return "(%s) / (%s)" % (poly(r[0]), poly(r[1]))
+
+
+def parse(text):
+    """rational function from a small formula text over identifiers (dots allowed), numbers, + - * / and parentheses"""
+    import re
+    toks = re.findall(r"\s*([A-Za-z_#][\w.#]*(?:\(\))?|\d+(?:\.\d+)?|[-+*/()])", text)
+    pos = [0]
+
+    def peek():
+        return toks[pos[0]] if pos[0] < len(toks) else None
+
+    def eat():
+        pos[0] += 1
+        return toks[pos[0] - 1]
+
+    def atom():
+        t = eat()
+        if t == "(":
+            v = expr()
+            assert eat() == ")"
+            return v
+        if t == "-":
+            a = atom()
+            return (p_add(ZERO, a[0], -1), a[1])
+        if re.match(r"^\d", t):
+            return (p_const(Fraction(t)), ONE)
+        return (p_atom(t), ONE)
+
+    def term():
+        a = atom()
+        while peek() in ("*", "/"):
+            op = eat()
+            b = atom()
+            a = (p_mul(a[0], b[0]), p_mul(a[1], b[1])) if op == "*" else (p_mul(a[0], b[1]), p_mul(a[1], b[0]))
+        return a
+
+    def expr():
+        a = term()
+        while peek() in ("+", "-"):
+            op = eat()
+            b = term()
+            a = (p_add(p_mul(a[0], b[1]), p_mul(b[0], a[1]), 1 if op == "+" else -1), p_mul(a[1], b[1]))
+        return a
+    v = expr()
+    assert pos[0] == len(toks), text
+    return v
